@@ -24,7 +24,7 @@ ASSUMPTIONS = ['base calls are only checked where every sensible likelihood agre
                'with identical quality multisets give N; one base dominating in count and in every quality gives that base',
                'the MD tag is parsed tolerantly (missing zero separators accepted): only its meaning is compared with the reference']
 MIN_NONTRIVIAL = {'quick': 150, 'thorough': 30000}
-REQUIRED_MONITORS = ['history:grown_molecules', 'lib:reads_with_indel', 'ret:deduplicate_majority', 'reads:checked', 'reads:gapped', 'reads:reverse', 'bases:decidable_checked', 'bases:conflict_N_expected', 'bases:model_checked', 'bases:near_tie_checked', 'lib:near_tie_planted', 'lib:molecules_over_their_cap', 'lib:molecule_at_contig_start',
+REQUIRED_MONITORS = ['bases:unanimous_but_less_likely_than_no_call', 'ret:write_pysam_with_callback', 'history:grown_molecules', 'lib:reads_with_indel', 'ret:deduplicate_majority', 'reads:checked', 'reads:gapped', 'reads:reverse', 'bases:decidable_checked', 'bases:conflict_N_expected', 'bases:model_checked', 'bases:near_tie_checked', 'lib:near_tie_planted', 'lib:molecules_over_their_cap', 'lib:molecule_at_contig_start',
                      'cli:consensus_reads_checked', 'split:max_N_span']
 SHARD_TIMEOUT = {'quick': 900, 'thorough': 5400}
 
@@ -234,8 +234,10 @@ def check_consensus_reads(acc, reads, mol_recs, gen, contig, truth_tags, label, 
                 continue
             bases = Counter(b for b, q in o)
             call = seq[qp]
-            if len(bases) >= 2:
+            if len(bases) >= 2 or any(q < 10 for b, q in o):
                 exp_model, gap = model_call(o)
+                if len(bases) == 1 and exp_model == 'N':
+                    acc.count('bases:unanimous_but_less_likely_than_no_call')
                 if exp_model is not None:
                     acc.count('bases:model_checked')
                     if gap < 1e-4:
@@ -292,6 +294,9 @@ def _ranges(s):
         yield start, prev
 
 
+LOWQ = [0]
+
+
 def run_case(case):
     import pysam
     import singlecellmultiomics.molecule as smm
@@ -325,6 +330,14 @@ def run_case(case):
                     qual = None
                     if r.random() < 0.5:
                         qual = ([r.choice([12, 20, 30, 37]) for _ in range(rl)], [r.choice([12, 20, 30, 37]) for _ in range(rl)])
+                        if r.random() < 0.5:
+                            # read tails of quality 0..3 (the sequencer's "no confidence" marks): a base that only such observations support is
+                            # less likely than no call at all
+                            for qa in qual:
+                                k_ = r.randint(1, 6)
+                                for j_ in (range(k_) if r.random() < 0.5 else range(rl - k_, rl)):
+                                    qa[j_] = r.choice([0, 2, 2, 3])
+                            LOWQ[0] += 1
                     fr, tr = F.make_fragment(gen, r, rid, case['i'] + 1, method, cell, name, pos, reverse, umi, r.choice([60, 75, 120, 300, 700]),
                                              r1_len=rl, r2_len=rl, mismatches=r.choice([0, 0, 1, 2]), r2_mismatches=r.choice([0, 0, 1]),
                                              single_end=r.random() < 0.1, qual=qual,
@@ -358,10 +371,28 @@ def run_case(case):
             acc.count('config:max_associated_fragments', 1 if cap else 0)
             mols = list(MoleculeIterator(f, molecule_class=mclass, fragment_class=fclass, fragment_class_args={'umi_hamming_distance': 0},
                                          molecule_class_args=margs, yield_overflow=False))
+            cb_path = os.path.join(dd, 'consensus_with_callback.bam')
+            cb_out = pysam.AlignmentFile(cb_path, 'wb', header=f.header)
+            cb_seen = defaultdict(int)
+            cb_expect = {}
             for mi, m in enumerate(mols):
                 ids = [F.id_from_name([x for x in frag if x is not None][0].query_name) for frag in m]
                 mol_recs = [rec for i in ids for rec in byid[i]]
                 t0 = truths[ids[0]]
+                if mi % 3 == 0:
+                    # the writer with a post-processing callback (the documented way to tag / filter the consensus reads of a molecule before
+                    # they are written): the callback walks over the reads it is given
+                    def _cb(reads, key=mi):
+                        for cr in reads:
+                            if cr is not None:
+                                cr.set_tag('zc', key)
+                                cb_seen[key] += 1
+                    try:
+                        m.write_pysam(cb_out, consensus=True, no_source_reads=True, consensus_name=f'cbmol{mi}x', consensus_read_callback=_cb)
+                        cb_expect[mi] = (mol_recs, t0, len(ids))
+                    except Exception as ex:
+                        acc.violate('write_pysam-with-callback-raised:' + type(ex).__name__, f'write_pysam(consensus=True, consensus_read_callback=...) raised {ex!r} ({cfg})',
+                                    {'config': cfg, 'molecule_fragments': ids})
                 for max_n in (None, 50, 300):
                     wit = {'config': cfg, 'molecule_fragments': ids, 'max_N_span': max_n,
                            'reads': [(x['flag'], x['pos'], x['cigar'], x['seq']) for x in mol_recs][:12]}
@@ -386,6 +417,25 @@ def run_case(case):
                         acc.sigs.add(f"{case['i']}/{mi}/{max_n}")
                     if max_n is None and len(out) != 1:
                         acc.violate('consensus-read-count', f'{len(out)} consensus reads for one molecule without max_N_span', wit)
+            cb_out.close()
+            if cb_expect:
+                written = defaultdict(list)
+                with pysam.AlignmentFile(cb_path, check_sq=False) as fcb:
+                    for a in fcb.fetch(until_eof=True):
+                        if a.has_tag('zc'):
+                            written[a.get_tag('zc')].append(a)
+                        else:
+                            acc.violate('consensus-written-without-callback-applied', f'record {a.query_name} was written but the callback never saw it ({cfg})', {'config': cfg})
+                for mi, (mol_recs, t0, nfr) in cb_expect.items():
+                    acc.count('ret:write_pysam_with_callback')
+                    wit = {'config': cfg, 'molecule_index': mi, 'reads': [(x['flag'], x['pos'], x['cigar'], x['seq']) for x in mol_recs][:12]}
+                    if len(written.get(mi, [])) != cb_seen.get(mi, 0) or not written.get(mi):
+                        acc.violate('consensus-reads-handed-to-callback-not-written', f'the callback saw {cb_seen.get(mi, 0)} consensus reads of molecule {mi} but '
+                                                                                      f'{len(written.get(mi, []))} were written ({cfg})', wit)
+                        continue
+                    if not cap:
+                        check_consensus_reads(acc, written[mi], mol_recs, gen, t0['contig'], {'SM': t0['sample'], 'RX': t0['umi'], 'DS': t0['site'], 'TF': nfr},
+                                              'write_pysam with callback', wit)
             # ---- history: a molecule that grows between two consensus requests (also touching the cached per-base properties in between)
             by_key = defaultdict(list)
             for t in truths.values():
